@@ -222,11 +222,14 @@ func TestVerifBounded(t *testing.T) {
 		{"after 200,200,136,200,200", small, []int32{200, 200, 136, 200, 200}, append(mallocs(24, 136, 200, 400), frees(5)...), depth},
 		{"after 6 x 24", small, []int32{24, 24, 24, 24, 24, 24}, append(mallocs(24, 48, 56, 136), frees(5)...), depth},
 		{"after 32,80,32,80,48,48", small, []int32{32, 80, 32, 80, 48, 48}, append(mallocs(32, 80, 48, 112), frees(5)...), depth},
+		// remainders of split blocks that are a little larger than a size class: handed out, freed into a class
+		// list and handed out again (one operation deeper than the other families, fewer operations to choose from)
+		{"split remainders", []*Config{cfg(1, 2, 1000, 2), cfg(1, 2, 1000, 100)}, []int32{200, 200}, append(mallocs(32, 48, 152), frees(3)...), depth + 1},
 		// memory at its maximum: big blocks come and go, small requests must still be served from what is free
 		{"exhaustion", []*Config{cfg(1, 1, 1000, 0), cfg(1, 1, 1000, 2), cfg(1, 2, 1000, 1)}, nil, append(append(mallocs(24, 40, 200, 30000, 60000), rels(-8, 0)...), frees(3)...), depth},
 		// requests sized to end at, just before and just behind the current heap top and the next page boundaries
-		{"page boundaries", []*Config{cfg(1, 3, 1000, 0), cfg(1, 3, 1000, 2), cfg(1, 2, 4096, 1), cfg(2, 4, 65536, 0)}, nil,
-			append(append(rels(-24, -16, -8, 0, 8, 16, 24, 65536-16, 65536-8, 65536, 65536+8, 65536+16, 2*65536-8, 2*65536, 2*65536+8), mallocs(8, 1000)...), frees(2)...), depth - 1},
+		{"page boundaries and huge requests", []*Config{cfg(1, 3, 1000, 0), cfg(1, 3, 1000, 2), cfg(1, 2, 4096, 1), cfg(2, 4, 65536, 0)}, nil,
+			append(append(rels(-24, -16, -8, 0, 8, 16, 24, 65536-16, 65536-8, 65536, 65536+8, 65536+16, 2*65536-8, 2*65536, 2*65536+8), mallocs(8, 1000, 1<<28+16, 1<<30)...), frees(2)...), depth - 1},
 	}
 	done := make(chan struct{})
 	defer close(done)
